@@ -240,6 +240,25 @@ func interactionPrograms() []string {
 			out = append(out, fmt.Sprintf("for i = 2 {for i2 = 2 {%s}}; %s; println(q)", strings.ReplaceAll(keep, "V", "i2"), later))
 		}
 	}
+	// (P) a register-held variable changed by the index expression of the assignment that stores it; named twice as a key or
+	//     element of one literal; named by code that is built at run time (eval, defun) in its scope
+	for _, hold := range []string{"f = func(V) {BODY}; println(f(0), f(1))", "for V = 2 {println(func() {0}(), BODY2)}"} {
+		for _, body := range []string{"a = [0, 0, 0, 0]; a[++V] = V; a", "m = {1: 9}; m[++V] = V; m", "a = [0, 0, 0, 0]; a[V] = ++V; a", "a = [0, 0, 0, 0]; w = V; a[++w] = w; [a, w]", "a = [[0, 0], [0, 0]]; t = a[V]; t[++V - 1] = V; [t, V]",
+			`{V: println("a"), V: println("b")}`, `[println("a", V), println("b", V)]`, `{V: 1, V + 0: 2, V * 1: 3}`, `m = {V: "x"}; m[V] = "y"; m`, `{V: V, V: V + 1}`} {
+			if strings.HasPrefix(hold, "for") {
+				if strings.Contains(body, "++V") {
+					continue // (a loop variable that is incremented in the body is not held in a register; the function form covers it)
+				}
+				out = append(out, strings.ReplaceAll(strings.ReplaceAll(hold, "BODY2", "func() {"+body+"}()"), "V", "i"))
+				continue
+			}
+			out = append(out, strings.ReplaceAll(strings.ReplaceAll(hold, "BODY", body), "V", "n"))
+		}
+	}
+	for _, code := range []string{`eval("n + 1")`, `eval("n = n + 5; n")`, `defun("", [], ["n * 2"])()`, `defun("", ["q"], ["q + n"])(10)`, `g = defun("", [], ["n"]); n = n + 1; g()`, `eval("func() {n}")()`} {
+		out = append(out, fmt.Sprintf(`x_ERRTEXT = 0; f = func(n) {r = catch(%s); if r.err {"E"} else {r.value}}; println(f(1), f(2))`, code))
+		out = append(out, fmt.Sprintf(`x_ERRTEXT = 0; for n = 1:3 {r = catch(%s); println(if r.err {"E"} else {r.value})}`, code))
+	}
 	// containers reached through references
 	for _, a := range []string{"x[0] = 5", `x.k = 5`, "del(x[0])", "x = x + 1", "x = x + x", "del(x)"} {
 		for _, init := range []string{"[1, 2, 3]", `{"k": 1, 0: 2}`, "1:12", `{1: 1, 2: 2, 3: 3, 4: 4, 5: 5}`} {
